@@ -483,12 +483,16 @@ func nafWidthFits(c *Ctx, lookupOp, digit string) string {
 // int128Specs: sign/byte-order plumbing between Int128 and Scalar.
 func int128Specs() []*edt.Spec {
 	bytesOf := func(x string) string {
-		return "agg([0:8]=(out1(littleEndian.PutUint64(@binary.LittleEndian, zero, sel(" + x + ", .lo)))), [8:16]=(out1(littleEndian.PutUint64(@binary.LittleEndian, zero, sel(" + x + ", .hi)))))"
+		lo, hi := "sel("+x+", .lo)", "sel("+x+", .hi)"
+		if strings.HasPrefix(x, "$") {
+			lo, hi = x+".lo", x+".hi" // parts of a parameter are named directly
+		}
+		return "agg([0:8]=(out1(littleEndian.PutUint64(@binary.LittleEndian, zero, " + lo + "))), [8:16]=(out1(littleEndian.PutUint64(@binary.LittleEndian, zero, " + hi + "))))"
 	}
 	return []*edt.Spec{
 		{
 			Pkg: "internal/lattice", Func: "Int128.ToScalar", Opaque: []string{"Int128.neg", "Scalar.SetBits", "Scalar.Neg"}, MinPaths: 2,
-			Vars:         map[string]string{"(sel($x, .hi) < 0)": "negative"},
+			Vars:         map[string]string{"($x.hi < 0)": "negative"},
 			AssumePrefix: map[string]edt.Assumption{"isnil(err(Scalar.SetBits(": {Val: true, Why: "SetBits of a 32-byte array with the top 16 bytes zero cannot fail"}},
 			Classify: func(p *edt.Path, out string, e *edt.Env) string {
 				f, ok := p.Final["$s"]
@@ -510,7 +514,7 @@ func int128Specs() []*edt.Spec {
 		},
 		{
 			Pkg: "internal/lattice", Func: "Int128.Abs", Opaque: []string{"Int128.neg"}, MinPaths: 2,
-			Vars: map[string]string{"(sel($x, .hi) < 0)": "negative"},
+			Vars: map[string]string{"($x.hi < 0)": "negative"},
 			Classify: func(p *edt.Path, out string, e *edt.Env) string {
 				switch out {
 				case "Int128.neg($x)":
@@ -525,7 +529,7 @@ func int128Specs() []*edt.Spec {
 				"x":  func(e *edt.Env) edt.Tri { return edt.Not(e.V("negative")) },
 			},
 		},
-		termSpec("internal/lattice", "Int128.IsNegative", nil, "(sel($x, .hi) < 0)"),
+		termSpec("internal/lattice", "Int128.IsNegative", nil, "($x.hi < 0)"),
 		{
 			Pkg: "internal/lattice", Func: "newInt128FromScalar", MinPaths: 1, Vars: map[string]string{},
 			AssumePrefix: map[string]edt.Assumption{"isnil(err(Scalar.ToBytes(": {Val: true, Why: "ToBytes into a 32-byte array cannot fail"}},
